@@ -225,7 +225,7 @@ prop("C07",
      [r_data.rule_wrap_count, r_data.rule_tokenizer, r_sec.rule_line_normalise, r_data.rule_counter, r_data.rule_reshape,
       r_data.rule_split, r_sec.rule_reseek, r_sec.rule_end_test, r_si.rule_compare, r_sec.rule_content_only_effects,
       r_data.rule_orient, r_sec.rule_case, r_sec.rule_steer, r_data.rule_engine_select, r_hdrt.rule_every_line,
-      r_data.rule_null_table, r_data.rule_tokens_kept, r_num.rule_curve_raw, r_data.rule_subs_agree, r_data.rule_sample_window, r_data.rule_splitter_guard, r_data.rule_single_pass],
+      r_data.rule_null_table, r_data.rule_tokens_kept, r_num.rule_curve_raw, r_data.rule_subs_agree, r_data.rule_sample_window, r_data.rule_splitter_guard, r_data.rule_single_pass, r_data.rule_sniff_pure],
      "Column binding analysis: under the assumption WRAP == YES with declared curves, an explicit-state search of "
      "LASFile.read shows that the n_columns argument of the reference engine is never the per-line count sniffed by "
      "inspect_data_section, and all tests on the WRAP value fold to the same predicate over 9 probe values "
@@ -644,6 +644,8 @@ ALSO10 = {
     "C20": "Round 10: `<object>.open(...)` (pathlib.Path.open, also on a call result such as ref.absolute().open(mode)) is an "
            "acquisition; a lasio helper that may return such a handle makes each of its call sites an acquisition site (may-summary, "
            "not specialised by the constant arguments of the call).",
+    "C07": "Round 10: DATA.ARGS-READONLY (effect summaries: the sniffer and both engines modify none of their arguments apart from "
+           "the file position - read() hands the same substitution list to the sniffer and to the engine).",
     "C08": "Round 10: PU.TABLE-ALIAS also counts for this property - num() applies the comma-decimal substitution it looks up in "
            "defaults.READ_SUBS, so a read-reachable function that extends an entry of that table in place (through an alias) changes "
            "which header values become numbers in every later read.",
@@ -654,7 +656,9 @@ ALSO10 = {
            "primitive it calls and carries on: composite edits such as replace_curve_item = delete + insert rely on the raise as "
            "their bounds check); LF.RANK also requires that the column count which pads the curve list is taken from the array the "
            "columns are read from, not from its un-truncated precursor.",
-    "C17": "Round 10: PK.INDEPENDENT is path-sensitive - every CFG path to a value-return of a __deepcopy__ override passes through "
+    "C15": "Round 10: SI.GET-PURE commit-last (nothing that can raise follows the append in get(add=True): a failed get() leaves "
+           "the section unchanged).",
+    "C17": "Round 10: no copy.copy() in a __deepcopy__ override or the class helpers it calls; PK.INDEPENDENT is path-sensitive - every CFG path to a value-return of a __deepcopy__ override passes through "
            "the statement that deep-copies the instance __dict__ (an early exit returning a constructor-fresh object resets "
            "mnemonic_transforms); `return memo[...]` is the accepted early exit.",
     "C18": "Round 10: LF.VIEWS also counts for this property - to_csv, df and the JSON document read LASFile.data, which must be "
